@@ -37,11 +37,11 @@ func init() {
 		ID: "C04", Level: "model_checking",
 		Rule: "one state = one feasible path through the real entry-point glue (validate.go, process_input.go, normalizer.go, report.go) for one entry point and one assignment of the symbolic fault flags; all paths are distinct",
 		Harnesses: func(tier string) []HarnessSpec {
-			return []HarnessSpec{{Pkg: "internal/validator", Fn: "VerifC04Entry", Native: "VerifC04EntryNative", Reach: []string{"decode-failed", "flatten-failed", "ok-path"},
-				Bounds: map[string]any{"entry_points": 4, "fault_flags": "decode, flatten (typed error | plain error | panic | empty graph), compile, eval error, empty result; the failing text submitted twice"}},
+			return []HarnessSpec{{Pkg: "internal/validator", Fn: "VerifC04Entry", Native: "VerifC04EntryNative", Reach: []string{"decode-failed", "flatten-failed", "ok-path", "trailing-text"},
+				Bounds: map[string]any{"entry_points": 4, "fault_flags": "decode (no value readable | text after the first value), flatten (typed error | plain error | panic | empty graph), compile, eval error, empty result; the failing text submitted twice"}},
 				// which texts are unreadable is decided by the real decoding code, run natively on a family of concrete texts
 				{Pkg: "internal/validator", Fn: "VerifC04Texts", Native: "VerifC04TextsNative", Reach: []string{"returned"},
-					Bounds: map[string]any{"texts": "41 concrete texts from which no complete JSON value can be read: empty, blank, truncated values, YAML/RAML documents and flow collections, comments before the value, UTF-8/UTF-16 byte order marks, XML, Turtle, bare words", "entry_points": 4, "decoders_run_natively": "encoding/json Decoder and Unmarshal, OPA util.Unmarshal / UnmarshalJSON (any other decoder of the data text ends the path as unsupported: inconclusive)"}},
+					Bounds: map[string]any{"texts": "54 concrete texts that are not a JSON document: empty, blank, truncated values, YAML/RAML documents and flow collections, comments before the value, UTF-8/UTF-16 byte order marks, XML, Turtle, bare words, and a JSON value followed by more text (YAML that starts with a quoted key / number / date / boolean, a second document, stray brackets, NUL)", "entry_points": 4, "decoders_run_natively": "encoding/json Decoder and Unmarshal, OPA util.Unmarshal / UnmarshalJSON (any other decoder of the data text ends the path as unsupported: inconclusive)"}},
 				// the command line is an entry point too: a failed validation must not end with status 0
 				{Pkg: "cmd/commands", Fn: "VerifC18Validate", Native: "VerifC18ValidateNative", Reach: []string{"lib-failed"}, Bounds: map[string]any{"library_failure": "any error value | io.ErrUnexpectedEOF (truncated data) | io.EOF (empty data)"}}}
 		},
@@ -331,9 +331,13 @@ func init() {
 		ID: "C15", Level: "translation_validation", Extra: regoC15,
 		Rule: "one program pair = (base profile, rewritten text); both are translated by the real parser+generator, both modules are evaluated on the SAME symbolic graph and z3 decides whether any graph gives different (severity, validation, focus node, message) result sets",
 		Harnesses: func(tier string) []HarnessSpec {
-			return []HarnessSpec{{Pkg: "internal/validator", Fn: "VerifC06Generate", Native: "VerifC06GenerateNative", Reach: []string{"generated-twice"}, Bounds: map[string]any{"note": "Go map iteration orders: the generated text itself is order-independent (C06), so one module per text suffices"}}}
+			return []HarnessSpec{{Pkg: "internal/validator", Fn: "VerifC06Generate", Native: "VerifC06GenerateNative", Reach: []string{"generated-twice"}, Bounds: map[string]any{"note": "Go map iteration orders: the generated text itself is order-independent (C06), so one module per text suffices"}},
+				// custom-domain-property steps are outside the symbolic graph model: what the rewrite family
+				// cannot evaluate is pinned at the decision that makes the difference
+				{Pkg: "internal/generator", Fn: "VerifC15CustomByNamespace", Reach: []string{"parsed", "generated"}, Bounds: map[string]any{"prefix_names": "apiExt | four other names, declared by the profile or not", "namespaces": "the api-extension namespace | three others", "steps": "forward and inverse, three local names", "generator_modes": 3}}}
 		},
 		Assumptions: []string{
+			"custom-domain-property paths (apiExt.*) are not evaluated on symbolic graphs; for them the check decides only that the kind of lookup generated follows the namespace and not the prefix name",
 			"rewrite catalogue: reverse / rotate every mapping, level list and and/or operand list; rename the prefix; a second prefix bound to the same namespace; single/double/plain quoting, flow style, comments, indentation — applied to 3 base profiles in which every mapping and list has 2-4 entries",
 			"graphs of 2 (quick) / 3 (thorough) nodes, <= 2 values per property; yaml.v3 runs natively on each concrete text",
 			"arbitrary permutations beyond reverse/rotate and rewrites outside the catalogue are outside the bound",
